@@ -439,7 +439,13 @@ impl Property for C09 {
             DescOnly,
         }
         let vals: Vec<&str> = vars.iter().map(|_| "val").collect();
+        // the other API form for vectors: the variable label names are preset on the options and the constructor gets an empty
+        // slice. Whether the presets then count is not judged (the constructor's verdict is only compared with the statement in
+        // the ordinary form); what gather() exposes afterwards is.
+        let preset = is_vec && src.chance(40);
         let build = |opts: Opts| -> Result<Made, prometheus::Error> {
+            let (opts, vars): (Opts, Vec<&'static str>) =
+                if preset { (opts.variable_labels(vars.iter().map(|s| s.to_string()).collect()), vec![]) } else { (opts, vars.clone()) };
             Ok(match ctor {
                 Ctor::Counter => Made::C(Box::new(Counter::with_opts(opts)?), vec![]),
                 Ctor::IntCounter => Made::C(Box::new(IntCounter::with_opts(opts)?), vec![]),
@@ -450,31 +456,36 @@ impl Property for C09 {
                     let v = CounterVec::new(opts, &vars)?;
                     let v2 = v.clone();
                     let vals = vals.clone();
-                    Made::C(Box::new(v), vec![Box::new(move || { let _ = v2.get_metric_with_label_values(&vals).map(|c| c.inc()); })])
+                    Made::C(Box::new(v), vec![Box::new(move || { let _ = v2.get_metric_with_label_values(&vals).map(|c| c.inc());
+                        let _ = v2.get_metric_with_label_values(&[] as &[&str]).map(|c| c.inc()); })])
                 }
                 Ctor::IntCounterVec => {
                     let v = IntCounterVec::new(opts, &vars)?;
                     let v2 = v.clone();
                     let vals = vals.clone();
-                    Made::C(Box::new(v), vec![Box::new(move || { let _ = v2.get_metric_with_label_values(&vals).map(|c| c.inc()); })])
+                    Made::C(Box::new(v), vec![Box::new(move || { let _ = v2.get_metric_with_label_values(&vals).map(|c| c.inc());
+                        let _ = v2.get_metric_with_label_values(&[] as &[&str]).map(|c| c.inc()); })])
                 }
                 Ctor::GaugeVec => {
                     let v = GaugeVec::new(opts, &vars)?;
                     let v2 = v.clone();
                     let vals = vals.clone();
-                    Made::C(Box::new(v), vec![Box::new(move || { let _ = v2.get_metric_with_label_values(&vals).map(|c| c.inc()); })])
+                    Made::C(Box::new(v), vec![Box::new(move || { let _ = v2.get_metric_with_label_values(&vals).map(|c| c.inc());
+                        let _ = v2.get_metric_with_label_values(&[] as &[&str]).map(|c| c.inc()); })])
                 }
                 Ctor::IntGaugeVec => {
                     let v = IntGaugeVec::new(opts, &vars)?;
                     let v2 = v.clone();
                     let vals = vals.clone();
-                    Made::C(Box::new(v), vec![Box::new(move || { let _ = v2.get_metric_with_label_values(&vals).map(|c| c.inc()); })])
+                    Made::C(Box::new(v), vec![Box::new(move || { let _ = v2.get_metric_with_label_values(&vals).map(|c| c.inc());
+                        let _ = v2.get_metric_with_label_values(&[] as &[&str]).map(|c| c.inc()); })])
                 }
                 Ctor::HistogramVec => {
                     let v = HistogramVec::new(HistogramOpts::from(opts), &vars)?;
                     let v2 = v.clone();
                     let vals = vals.clone();
-                    Made::C(Box::new(v), vec![Box::new(move || { let _ = v2.get_metric_with_label_values(&vals).map(|c| c.observe(1.0)); })])
+                    Made::C(Box::new(v), vec![Box::new(move || { let _ = v2.get_metric_with_label_values(&vals).map(|c| c.observe(1.0));
+                        let _ = v2.get_metric_with_label_values(&[] as &[&str]).map(|c| c.observe(1.0)); })])
                 }
                 Ctor::Pulling => Made::C(Box::new(PullingGauge::new(fqn.clone(), help, Box::new(|| 1.0))?), vec![]),
                 Ctor::Desc => {
@@ -493,7 +504,10 @@ impl Property for C09 {
             )
         };
         let got_ok = made.is_ok();
-        if got_ok != want_ok {
+        if preset {
+            rep.class("variable-labels-preset-on-the-options");
+        }
+        if got_ok != want_ok && !preset {
             let sig = if got_ok {
                 if dup {
                     "duplicate-label-name-accepted"
@@ -610,6 +624,14 @@ impl Property for C09 {
                                     n,
                                     names
                                 );
+                            }
+                            // the bucket label of a histogram sample is `le`: an own label of that name would appear twice
+                            // on every exposed bucket line
+                            if f.get_field_type() == prometheus::proto::MetricType::HISTOGRAM && names.iter().any(|n| *n == "le") {
+                                // from the registry's common labels: the known finding (common labels are never compared with the
+                                // label names the metric itself exposes - for a histogram these include `le`)
+                                let sig = if common.contains_key("le") { "registry-common-label-clash" } else { "le-exposed-on-histogram-sample" };
+                                return fail(sig, format!("{}{}: gather() exposes a histogram sample that carries the label `le` itself: {:?}", describe(), reg_desc, names));
                             }
                             let mut sorted = names.clone();
                             sorted.sort();
